@@ -104,6 +104,7 @@ static int failure_seen;       /* the driver has observed the failing status thr
 static int do_submit(thread_pool_t *p, int i)
 {
 	drv_pc = 100 + i;
+	vs_yield(8100 + i);      /* API call boundary: the driver can be preempted between two calls */
 	int r = p->submit(p, &items[i]);
 	sub_ret[n_submitted++] = r;
 	if (r != 0) {
@@ -121,6 +122,7 @@ static int do_submit(thread_pool_t *p, int i)
 static int do_dequeue(thread_pool_t *p)
 {
 	drv_pc = 200 + n_dequeued;
+	vs_yield(8200 + n_dequeued);
 	item_t *it = p->dequeue(p);
 	if (it == NULL)
 		return -1;
@@ -135,6 +137,7 @@ static int do_dequeue(thread_pool_t *p)
 static int do_status(thread_pool_t *p)
 {
 	drv_pc = 300 + n_stat;
+	vs_yield(8300 + n_stat);
 	int s = p->get_status(p);
 	if (n_stat < 32) stat_seen[n_stat++] = s;
 	if (s != 0) {
@@ -240,6 +243,7 @@ int harness_main(int argc, char **argv)
 		}
 	}
 	drv_pc = 500;
+	vs_yield(8500);
 	p->destroy(p);
 	g_pool = NULL;
 	drv_pc = 501;
